@@ -668,6 +668,14 @@ func TestStress(t *testing.T) {
 			edgeRound(mon, rng, round)
 			continue
 		}
+		if round%16 == 11 {
+			bigPoolRound(mon, rng, round)
+			continue
+		}
+		if round == 4 && seed%100 < 2 { // (two shards of the stress, one variant each: it is the expensive round)
+			floodRound(mon, rng, round, int(seed%100))
+			continue
+		}
 		opt := workerpool.Option{NumberWorker: 1 + rng.Intn(3), ExpandableLimit: int32(rng.Intn(3)), ExpandedLifetime: time.Millisecond, DisableAutoStart: rng.Intn(4) == 0}
 		concurrentStart := opt.DisableAutoStart && rng.Intn(2) == 0
 		delay := time.Duration(rng.Intn(3000)) * time.Microsecond
@@ -1005,5 +1013,130 @@ func edgeRound(mon *bufio.Writer, rng *rand.Rand, round int) {
 		fmt.Fprintf(mon, "MON %d FAIL %s\n", round, msg)
 	} else {
 		fmt.Fprintf(mon, "MON %d ok subs=%d\n", round, 10)
+	}
+}
+
+// bigPoolRound (scale): a pool with many fixed workers (65..200), all of them parked on a task: the hand-over buffer still holds exactly
+// one waiting task (TryExecute: true once, then false), whatever the number of workers (C17), and exactly NumberWorker tasks run (C11).
+func bigPoolRound(mon *bufio.Writer, rng *rand.Rand, round int) {
+	nw := []int{65, 66, 100, 129, 200}[rng.Intn(5)]
+	opt := workerpool.Option{NumberWorker: nw, ExpandableLimit: 0, ExpandedLifetime: time.Minute}
+	fmt.Fprintf(mon, "RUN %d round=%d big pool opt=%+v\n", round, round, opt)
+	mon.Flush()
+	p := workerpool.NewPool(context.Background(), opt)
+	var running int32
+	release := make(chan struct{})
+	exec := func(context.Context) (interface{}, error) {
+		atomic.AddInt32(&running, 1)
+		<-release
+		return nil, nil
+	}
+	msg := ""
+	for i := 0; i < nw; i++ {
+		if _, ok := p.TryExecute(exec); !ok {
+			// a worker has not picked the previous task up yet: wait for the slot
+			for k := 0; k < 100000 && !ok; k++ {
+				time.Sleep(10 * time.Microsecond)
+				_, ok = p.TryExecute(exec)
+			}
+			if !ok {
+				msg = fmt.Sprintf("C11 a pool with %d fixed workers accepted only %d tasks although nothing was running to completion", nw, i)
+				break
+			}
+		}
+	}
+	for k := 0; k < 200000 && int(atomic.LoadInt32(&running)) < nw && msg == ""; k++ {
+		time.Sleep(10 * time.Microsecond)
+	}
+	if n := int(atomic.LoadInt32(&running)); n != nw && msg == "" {
+		msg = fmt.Sprintf("C11 %d tasks run on a saturated pool of %d fixed workers", n, nw)
+	}
+	if msg == "" {
+		got := ""
+		for i := 0; i < 5; i++ {
+			_, ok := p.TryExecute(exec)
+			got += map[bool]string{true: "T", false: "F"}[ok]
+		}
+		if got != "TFFFF" {
+			msg = fmt.Sprintf("C17 all %d workers busy: five TryExecute calls returned %s, expected TFFFF (one waiting task is buffered, not more)", nw, got)
+		}
+	}
+	close(release)
+	p.Stop()
+	if msg != "" {
+		fmt.Fprintf(mon, "MON %d FAIL %s\n", round, msg)
+	} else {
+		fmt.Fprintf(mon, "MON %d ok subs=%d\n", round, nw+5)
+	}
+}
+
+// floodRound (scale): a long history on one small pool - more than 2^16 tasks per worker (fixed and expanded) - and then the same
+// observations as at the beginning of its life: the cap (C11), and Stop waiting for the tasks that are running (C08).
+func floodRound(mon *bufio.Writer, rng *rand.Rand, round int, variant int) {
+	opt := workerpool.Option{NumberWorker: 1, ExpandableLimit: 1, ExpandedLifetime: time.Minute}
+	if variant == 1 {
+		opt = workerpool.Option{NumberWorker: 2, ExpandableLimit: 0, ExpandedLifetime: time.Minute} // fixed workers only
+	}
+	per := 70000
+	fmt.Fprintf(mon, "RUN %d round=%d flood opt=%+v tasks=%d\n", round, round, opt, 4*per)
+	mon.Flush()
+	p := workerpool.NewPool(context.Background(), opt)
+	trivial := func(context.Context) (interface{}, error) { return nil, nil }
+	var wg sync.WaitGroup
+	for s := 0; s < 4; s++ {
+		wg.Add(1)
+		go func() {
+			defer wg.Done()
+			for i := 0; i < per; i++ {
+				p.Do(workerpool.NewTask(context.Background(), trivial))
+			}
+		}()
+	}
+	wg.Wait()
+	msg := ""
+	var running, peak, finished int32
+	release := make(chan struct{})
+	exec := func(context.Context) (interface{}, error) {
+		n := atomic.AddInt32(&running, 1)
+		for {
+			m := atomic.LoadInt32(&peak)
+			if n <= m || atomic.CompareAndSwapInt32(&peak, m, n) {
+				break
+			}
+		}
+		<-release
+		time.Sleep(20 * time.Millisecond)
+		atomic.AddInt32(&running, -1)
+		atomic.AddInt32(&finished, 1)
+		return nil, nil
+	}
+	var tasks []*workerpool.Task
+	var tmu sync.Mutex
+	for i := 0; i < 6; i++ {
+		go func() {
+			t := p.Execute(exec)
+			tmu.Lock()
+			tasks = append(tasks, t)
+			tmu.Unlock()
+		}()
+	}
+	for k := 0; k < 100000 && atomic.LoadInt32(&running) < 2; k++ {
+		time.Sleep(10 * time.Microsecond)
+	}
+	time.Sleep(2 * time.Millisecond)
+	if pk := atomic.LoadInt32(&peak); pk > 2 {
+		msg = fmt.Sprintf("C11 after %d tasks on a pool with NumberWorker %d + ExpandableLimit %d, %d tasks execute simultaneously", 4*per, opt.NumberWorker, opt.ExpandableLimit, pk)
+	}
+	close(release)
+	time.Sleep(time.Millisecond) // tasks are inside their final 20ms now (or queued / blocked in Do)
+	startedBefore := atomic.LoadInt32(&running)
+	p.Stop()
+	if r := atomic.LoadInt32(&running); r != 0 && msg == "" {
+		msg = fmt.Sprintf("C08 after %d tasks: Stop returned while %d task(s) were still executing (%d were running when it was called)", 4*per, r, startedBefore)
+	}
+	if msg != "" {
+		fmt.Fprintf(mon, "MON %d FAIL %s\n", round, msg)
+	} else {
+		fmt.Fprintf(mon, "MON %d ok subs=%d\n", round, 4*per+6)
 	}
 }
